@@ -113,6 +113,11 @@ class SpecTask(Task):
                 else:
                     out += float(np.sum(np.abs(np.array(_flat([v]) if not isinstance(v, (list, tuple, np.ndarray)) else _flat(v), dtype=float))))
             return out
+        if self.data["obj"].startswith("noisy:"):
+            # a measurement, not a function: the same position evaluated again gives another value (a deterministic pseudo-noise of the evaluation count, so runs
+            # replay).  Legal: what an agent's cost IS is what was measured when it was built; a kept agent keeps it.
+            c_ = self.data["noisy_count"] = self.data.get("noisy_count", 0) + 1
+            return objective_value(self.data["obj"][6:], x) + ((c_ * 2654435761) % 1000) / 1000.0 * self.data.get("noise", 4.0)
         if self.data["obj"].startswith("mutating:"):
             # an objective that works IN PLACE on the list it is given (sorts it, rescales it): legal - the framework hands every evaluation its own corrected copy
             val = objective_value(self.data["obj"][9:], x)
